@@ -40,8 +40,8 @@ def run(c):
                      {"op": "verify", "c": "A3"}, {"op": "sign", "c": "B"}, {"op": "verify", "c": "B"}, {"op": "verify", "c": "At"}, {"op": "verify", "c": "A4"}],
                     [{"op": "sign", "c": "A"}, {"op": "sign", "c": "At"}, {"op": "verify", "c": "At"}, {"op": "verify", "c": "A"}, {"op": "verify", "c": "B"}]):
             extra.append({"img": img, "ops": ops})
-    # images with fewer than 16 data directories
-    for img in ("u0d10", "u5d6"):
+    # images with fewer than 16 data directories; images with unreferenced bytes in front of / between the sections
+    for img in ("u0d10", "u5d6", "ug1", "ug2"):
         extra.append({"img": img, "ops": [{"op": "sign", "c": "A"}, {"op": "verify", "c": "A"}, {"op": "reparse", "c": "-"}, {"op": "verify", "c": "A"}, {"op": "sign", "c": "B"},
                                            {"op": "verify", "c": "A"}, {"op": "verify", "c": "B"}, {"op": "verify", "c": "At"}, {"op": "reparse", "c": "-"}, {"op": "verify", "c": "B"}]})
     # a signer certificate issued by a CA (issuer differs from subject), alone and between self-signed ones
